@@ -1104,6 +1104,31 @@ enum class NodeType
 class Node
 {
 public:
+  Node() = default;
+  Node(const Node &) = delete;
+  Node &operator=(const Node &) = delete;
+  Node(Node &&) = default;
+  Node &operator=(Node &&) = default;
+
+  /// \brief Destroys the subtree iteratively. The implicit destructor recurses once per nesting
+  /// level (children -> unique_ptr -> ~Node) and overflows the stack for very deep documents
+  /// (Options::maxDepth is caller-configurable).
+  ~Node()
+  {
+    std::vector<std::unique_ptr<Node>> pending = std::move(children);
+    while (!pending.empty())
+    {
+      std::unique_ptr<Node> n = std::move(pending.back());
+      pending.pop_back();
+      for (auto &c : n->children)
+      {
+        pending.push_back(std::move(c));
+      }
+      n->children.clear();
+      // n is destroyed here with no children left, so its destructor does not recurse
+    }
+  }
+
   NodeType type{NodeType::Element};
   std::string name;  ///< Element/PI name; empty for text/comment/cdata
   std::string value; ///< Text content for Text/CData/Comment/PI; empty for Element/Document
